@@ -338,18 +338,27 @@ fn chain_doc(trivia: &Trivia, chain: &Chain) -> Doc {
         // container against the head's line and break it spuriously onto `~>` lines.
         let (head, tail) = terms.split_at(terms.len() - 1);
         let head_docs: Vec<Doc> = head.iter().map(|term| term_doc(trivia, term)).collect();
+        let separator = |index: usize| {
+            if needs_explicit_pipe(&terms[index - 1], &terms[index]) {
+                " ~> "
+            } else {
+                " "
+            }
+        };
         // …unless a head term carries a comment (it forces a break): flattening it would comment out
         // the rest of the line, so fall back to the ordinary grouped layout, which breaks safely.
         if !head_docs.iter().any(pretty::forces_break) {
-            let head_flat = head_docs
-                .iter()
-                .map(pretty::flatten)
-                .collect::<Vec<_>>()
-                .join(" ");
+            let mut head_flat = String::new();
+            for (index, doc) in head_docs.iter().enumerate() {
+                if index > 0 {
+                    head_flat.push_str(separator(index));
+                }
+                head_flat.push_str(&pretty::flatten(doc));
+            }
             return pretty::concat(vec![
                 prefix,
                 pretty::text(head_flat),
-                pretty::text(" "),
+                pretty::text(separator(head.len())),
                 term_doc(trivia, &tail[0]),
             ]);
         }
@@ -379,7 +388,9 @@ fn chain_terms_doc(trivia: &Trivia, terms: &[Term]) -> Doc {
     let mut parts = Vec::new();
     for (index, term) in terms.iter().enumerate() {
         if index > 0 {
-            if is_call_ender(&terms[index - 1]) {
+            if needs_explicit_pipe(&terms[index - 1], term) {
+                parts.push(pretty::text(" ~> "));
+            } else if is_call_ender(&terms[index - 1]) {
                 parts.push(pretty::line());
                 parts.push(pretty::if_break(pretty::text("~> "), pretty::nil()));
             } else {
@@ -389,6 +400,16 @@ fn chain_terms_doc(trivia: &Trivia, terms: &[Term]) -> Doc {
         parts.push(term_doc(trivia, term));
     }
     pretty::concat(parts)
+}
+
+/// Whether two adjacent chain terms must be joined by an explicit `~>`: written with a bare space
+/// they would re-parse as *one* construct. A bare `!` followed by an unnamed tuple reads as the
+/// general select form `! [sources]`.
+fn needs_explicit_pipe(previous: &Term, next: &Term) -> bool {
+    match (previous, next) {
+        (Term::Select(None, _), Term::Tuple(tuple)) => matches!(tuple.name, TupleName::Anonymous),
+        _ => false,
+    }
 }
 
 /// Whether a term completes a call unit: the flowing value is consumed here (a callable applied, a
